@@ -58,7 +58,14 @@ func gateCase(g *ref.Gate, k *ref.GLConsts) fieldCase {
 			wires = append(wires, w)
 			rw = append(rw, r)
 		}
-		for i := 0; i < 4; i++ {
+		nc := 4
+		if int(g.NumConsts) > nc {
+			nc = int(g.NumConsts)
+		}
+		if int(g.NumExtra) > nc {
+			nc = int(g.NumExtra)
+		}
+		for i := 0; i < nc; i++ {
 			c, r := fc.qeIn(fmt.Sprintf("c%d", i))
 			consts = append(consts, c)
 			rc = append(rc, r)
@@ -200,6 +207,13 @@ func runC15(r *Run) {
 	add(&ref.Gate{Kind: "MulExtension", NumOps: 1})
 	add(&ref.Gate{Kind: "BaseSum", NumLimbs: 1, Base: 2})
 	add(&ref.Gate{Kind: "BaseSum", NumLimbs: 3, Base: 4})
+	// parameters with two decimal digits where the real circuits have none (a numeral read in another
+	// radix, or cut after its first digit, still resolves - to another gate)
+	add(&ref.Gate{Kind: "BaseSum", NumLimbs: 2, Base: 10})
+	add(&ref.Gate{Kind: "BaseSum", NumLimbs: 5, Base: 16})
+	add(&ref.Gate{Kind: "Constant", NumConsts: 11})
+	add(&ref.Gate{Kind: "RandomAccess", Bits: 1, NumCopies: 12, NumExtra: 0})
+	add(&ref.Gate{Kind: "RandomAccess", Bits: 2, NumCopies: 1, NumExtra: 10})
 	add(&ref.Gate{Kind: "Reducing", NumCoeffs: 1})
 	add(&ref.Gate{Kind: "Reducing", NumCoeffs: 2})
 	add(&ref.Gate{Kind: "ReducingExtension", NumCoeffs: 1})
